@@ -224,13 +224,15 @@ var c09Amounts = []string{"0", "1", "11", "12", "13", "23", "24", "25", "59", "6
 	// fractions that have no exact binary representation (a fractional second is either dropped or applied exactly)
 	"1.001", "1.005", "2.003", "0.007", "2.999", "0.001", "1.009",
 	// amounts whose sub-day span exceeds what a 64-bit nanosecond count holds (292 years)
-	"2562047", "2562048", "3000000"}
+	"2562047", "2562048", "3000000",
+	// multiples of four (leap day + n years lands on a year that may or may not be a leap year: 2100, 1900, 2400)
+	"4", "8", "76", "80", "96", "100", "200", "400"}
 
 func c09Values(env *core.Env) [][2]string {
 	var out [][2]string
 	var days [][3]int
 	if env.Quick() {
-		days = [][3]int{{2020, 1, 31}, {2020, 2, 29}, {2021, 2, 28}, {2020, 12, 31}, {2021, 1, 1}, {2020, 3, 31}, {2020, 8, 31}, {1, 1, 1}, {9999, 12, 31}, {2019, 6, 15}}
+		days = [][3]int{{2020, 1, 31}, {2020, 2, 29}, {2021, 2, 28}, {2020, 12, 31}, {2021, 1, 1}, {2020, 3, 31}, {2020, 8, 31}, {1, 1, 1}, {9999, 12, 31}, {2019, 6, 15}, {2000, 2, 29}, {2096, 2, 29}, {1904, 2, 29}}
 	} else {
 		start := model.DaysFromCivil(2019, 3, 1)
 		end := model.DaysFromCivil(2023, 2, 28)
